@@ -15,6 +15,7 @@ open Tbox.Util Tbox.C01
 inductive XAct where
   | act (a : Act)
   | cross (t k : Nat)
+  | query               -- isRunning() + isInLoopThread() from inside the callable
 deriving Repr
 
 def nThreads : Nat := 4
@@ -24,6 +25,7 @@ def parseXAct (w : String) : Option XAct :=
   | ['x'] => some (.act .exit)
   | ['t'] => some (.act (.exitLater 5))
   | ['R'] => some (.act .nestedRun)
+  | ['q'] => some .query
   | 't' :: r => (String.ofList r).toNat?.bind fun w => if 0 < w ∧ w < 4611686018427387904 then some (.act (.exitLater w)) else none
   | 'r' :: r => (String.ofList r).toNat?.bind fun k => if k < 64 then some (.act (.run k)) else none
   | ['!'] => some (.act .throw)
@@ -44,7 +46,7 @@ def parseBody (w : String) : Option (List XAct) :=
     if l.isEmpty ∨ l.length > 16 then none else some l
 
 def stripBody (b : List XAct) : List Act :=
-  b.filterMap fun x => match x with | .act a => some a | .cross _ _ => none
+  b.filterMap fun x => match x with | .act a => some a | _ => none
 
 structure TAcc where
   s : State := init
@@ -74,6 +76,10 @@ def TAcc.tag (a : TAcc) (t : String) : TAcc := if a.tags.contains t then a else 
 /-- remember the script of a submitted callable; an empty std::function is never called (no `E` line) -/
 def TAcc.noteSub (a : TAcc) (id k : Nat) : TAcc :=
   { a with bodies := (id, a.ext k) :: a.bodies, internal := if a.nulls.contains k then id :: a.internal else a.internal }
+
+def b2s (b : Bool) : String := if b then "1" else "0"
+/-- the answers of `isRunning()` and `isInLoopThread()` to thread `t` in the current model state -/
+def queryLine (s : State) (t : Nat) : String := s!"Q {b2s (isRunning s)} {b2s (inLoopThread s t)}"
 
 def expectLine (a : TAcc) (want : String) : TAcc :=
   if a.err.isSome then a else
@@ -136,12 +142,18 @@ def runScript (a : TAcc) (b : List XAct) : TAcc :=
     | .act (.cancel id) =>
         let r := cancelRet a.s id
         let a := if r && a.timerIds.contains id then { a.tag "cancel-of-internal-task" with leakOk := true } else a
+        let a := if a.s.executed.head? == some id then a.tag (if a.s.phase == .drain then "cancel-self-in-drain" else if a.s.phase == .next then "cancel-self-next-batch" else "cancel-self-wake-batch") else a
+        let a := if a.s.executed.head? == some id && a.s.tmpQ.isEmpty && a.s.phase != .drain then a.tag "cancel-self-last-of-batch" else a
+        let a := if id == a.s.inAlloc + 2 || id == a.s.nextAlloc + 2 then a.tag "cancel-next-id" else a
         let a := a.tag (if r then (if hasId a.s.tmpQ id then "cancel-batch-hit" else "cancel-queue-hit")
                         else if id ∈ a.s.executed then "cancel-after-exec" else if id ∈ idsOf a.s.dQ then "cancel-in-drain-miss" else "cancel-miss")
         expectLine (doStep a .act) ("C " ++ toString id ++ (if r then " 1" else " 0"))
     | .act .exit => (exitStep a .act false).tag "exit-in-task"
     | .act (.exitLater _) => exitStep a .act true
     | .act .throw => { (doStep a .act).tag "throw" with thrown := true }
+    | .query =>
+        let a := a.tag (if a.s.phase == .drain then (if a.s.destroying then "query-in-destructor-or-cleanup" else "query-in-exit-drain") else "query-in-task")
+        expectLine a (queryLine a.s a.s.loopTid)
     | .cross t k =>
         if t ≥ nThreads || t == a.s.loopTid || a.late.isSome || (a.s.phase == .drain && a.s.destroying && !a.s.userCleanup) then
           expectLine a "W skip"
@@ -268,6 +280,15 @@ def stepOp (a : TAcc) (line : String) : TAcc :=
       match x.toNat?, y.toNat? with
       | some x, some y => if x < 18446744073709551616 ∧ y < 18446744073709551616 then expectLine ((doStep a (.setWL x y)).tag "waterline") "P wl" else bad
       | _, _ => bad
+  | ["query", t] =>
+      match thr t with
+      | some t =>
+          if !idle && t == a.s.loopTid then bad else
+          expectLine (a.tag (if idle then (if a.runs > 0 then "query-after-run" else "query-before-run") else "query-foreign-while-running")) (queryLine a.s t)
+      | none => bad
+  | ["newloop", e] =>
+      -- Loop::New(engine): an unknown engine name gives nullptr (observed; no model state involved)
+      if e == "epoll" || e == "select" then expectLine a "P new ok" else expectLine (a.tag "new-unknown-engine") "P new null"
   | ["cleanup", t] =>
       match thr t with
       | some t => if !idle then bad else opCleanup a t
@@ -289,6 +310,7 @@ def stepOp (a : TAcc) (line : String) : TAcc :=
           if !idle then bad else
           let r := cancelRet a.s id
           let a := if r && a.timerIds.contains id then { a.tag "cancel-of-internal-task" with leakOk := true } else a
+          let a := if id == a.s.inAlloc + 2 || id == a.s.nextAlloc + 2 then a.tag "cancel-next-id" else a
           expectLine ((doStep a (.idleAct t (.cancel id))).tag (if r then "cancel-idle-hit" else "cancel-miss")) ("C " ++ toString id ++ (if r then " 1" else " 0"))
       | _, _ => bad
   | ["exit", t] =>
@@ -699,7 +721,7 @@ def stressOp (a : TAcc) (sel : Bool := false) : TAcc :=
   match r.err with
   | some e => a.fail e
   | none =>
-    if lost > 0 then a.fail s!"LOST WAKE-UP: {lost} time(s) no task was executed for 300 ms although tasks were pending and the loop was running"
+    if lost > 0 then a.fail s!"LOST WAKE-UP: {lost} time(s) no task was executed for 5 s although tasks were pending and the loop was running"
     else { a with tl := rest, execs := a.execs + r.execs }
 
 structure DS where
